@@ -289,6 +289,44 @@ pub fn suite_c14(ctx: &mut Ctx) {
             }
         }
     }
+    // Q32E2 -> PxE2<N>, directed: an exact power of two at every scale of the N-bit format (where the regime
+    // cuts exponent bits these are exactly the rounding ties) plus or minus dust far below it
+    for n in 3..=32u32 {
+        let maxs = ((n - 2) << 2) as i32;
+        // powers of two that PxE2<N> represents exactly
+        let exact: Vec<(i32, u64)> = (-maxs..=maxs).filter_map(|sc| {
+            let p = gen::from_scale(n, 2, sc, 0);
+            let (_, s2, _, f) = gen::decode(n, 2, p);
+            if s2 == sc && f == 0 { Some((sc, p)) } else { None }
+        }).collect();
+        let step = if ctx.thorough { 1 } else { 2 };
+        for t in (-maxs - 8..=maxs + 8).step_by(step) {
+            // a * b = 2^t
+            let mut found = None;
+            for &(sa, pa) in exact.iter() {
+                if let Some(&(_, pb)) = exact.iter().find(|&&(sb, _)| sa + sb == t) {
+                    found = Some((pa, pb));
+                    if sa.abs() <= (t - sa).abs() {
+                        break;
+                    }
+                }
+            }
+            let (a, b) = match found { Some(x) => x, None => continue };
+            for v in 0..3 {
+                ctx.sink.boundary();
+                ctx.sink.free = false;
+                let mut q = QAny::new("p32");
+                gq(ctx, &mut q, n, "q_init", "tr", &[]);
+                let neg = v == 2;
+                gq(ctx, &mut q, n, if neg { "q_sub" } else { "q_add" }, "pp", &[store(n, a), store(n, b)]);
+                // dust: minpos * minpos of the N-bit format (2^(-2 maxs)), added or subtracted
+                let mp = store(n, 1);
+                gq(ctx, &mut q, n, if (v == 0) ^ neg { "q_add" } else { "q_sub" }, "pp", &[mp, mp]);
+                gq(ctx, &mut q, n, "q_to_posit", if t % 2 == 0 { "tr" } else { "fr" }, &[]);
+                ctx.sink.free = true;
+            }
+        }
+    }
     // Q32E2 -> PxE2<N>: short histories accumulated with PxE2<N> terms, read back at width N
     for n in 2..=32u32 {
         let lat = gen::lattice(n, 2, &mut ctx.rng, 0);
